@@ -60,6 +60,16 @@ package webserver
 //@        && !(call("(net/http.Header).Get", old(r.Header), "If-None-Match") != "" && etagMatch(etag, call("(net/http.Header).Get", old(r.Header), "If-None-Match")))
 //@
 //@ -- ------------------------------------------------------------------ administrative API (C17, C12)
+//@ func parseGroupName
+//@   safe
+//@   strext
+//@   props C19 C12
+//@   modifies nothing
+//@   -- C19: URL-to-group parsing yields only names the group layer accepts (or nothing)
+//@   ensures agrees: result != "" ==> group.goodname(result)
+//@   -- (the test for a path separator other than / is dead code where filepath.Separator is /)
+//@   unreachable ret3 ret4
+//@
 //@ func splitPath
 //@   safe
 //@   props C12 C17
